@@ -1,5 +1,7 @@
 import MosdnsVerif.Base.Hex
 import MosdnsVerif.Model.C01Exec
+import MosdnsVerif.Model.C01Doq
+import MosdnsVerif.Gen.Facts
 
 namespace Driver.C01
 open Model.C01
@@ -68,6 +70,37 @@ def runReuse (ops : List String) : String :=
           go s' rest (out :: acc)
   go {} ops []
 
+/-- DoH: `build:<c>` / `serve:<c>` events on the request model; whether a call's URL is its own is the regenerated fact -/
+def dlabel? (op : String) : Option DLabel :=
+  match op.splitOn ":" with
+  | ["build", c] => c.toNat?.map .build
+  | ["serve", c] => c.toNat?.map .serve
+  | _ => none
+
+def runDoh (ops : List String) : String :=
+  let perCall := Gen.Facts.c01DohRequestPerCall == some true
+  let rec go (s : Doh) (ops : List String) (acc : List String) : String :=
+    match ops with
+    | [] => ";".intercalate acc.reverse
+    | op :: rest =>
+      match dlabel? op with
+      | none => "bad-op"
+      | some l =>
+        match s.step perCall l with
+        | none => ";".intercalate (("not-enabled@" ++ op) :: acc).reverse
+        | some s' =>
+          let out := if s'.log.length > s.log.length then (match s'.log.head? with | some (c, o) => s!"{c}<-{o}" | none => "?") else "-"
+          go s' rest (out :: acc)
+  go {} ops []
+
+def fnv (b : Bytes) : UInt32 := b.foldl (fun h x => (h ^^^ x.toUInt32) * 16777619) 2166136261
+
+/-- cut `b` into chunks of the given sizes; what is left is one final chunk -/
+def chunk : Bytes → List Nat → Go.Stream
+  | [], [] => []
+  | b, [] => [b]
+  | b, n :: ns => b.take n :: chunk (b.drop n) ns
+
 def handle : List String → String
   | ["pipe", tries, ops] =>
     match tries.toNat? with
@@ -81,6 +114,17 @@ def handle : List String → String
       let onWire := rewrite qm w
       let r := restore qm ⟨onWire.id, b + 1⟩
       s!"wire={onWire.id} id={r.id} body={r.body}"
+    | _, _, _ => "bad-op"
+  | ["doh", ops] => runDoh (ops.splitOn ",")
+  | ["doq", id, stream, sizes] =>
+    -- the bytes the server put on the query's stream, the sizes of the pieces they arrive in, the caller's id
+    match id.toNat?, Hex.decode stream, (if sizes == "-" then some [] else (sizes.splitOn ",").mapM (·.toNat?)) with
+    | some id, some b, some ns =>
+      match doqReturn (UInt8.ofNat (id / 256)) (UInt8.ofNat (id % 256)) (chunk b ns) with
+      | .error .eof => "err:eof"
+      | .error .unexpectedEOF => "err:unexpectedEOF"
+      | .error .tooSmall => "err:tooSmall"
+      | .ok r => s!"ok {r.length} {(fnv r).toNat}"
     | _, _, _ => "bad-op"
   | _ => "bad-op"
 
